@@ -68,20 +68,20 @@ type runGT struct {
 	rdvDone        bool
 	RdvReached     bool
 	// run-level
-	DoCalledNs     int64
-	DoCalledSeq    uint64
-	DoReturnedNs   int64
-	DoReturnedSeq  uint64
-	DoReturned     bool
-	DoErr          string
-	DoPanic        string
-	CancelNs       int64
-	CancelSeq      uint64
-	Cancelled      bool
-	TrigErr        string
-	NewRunErr      string
-	LeftoverAfter  []string
-	LateProgress   int
+	DoCalledNs             int64
+	DoCalledSeq            uint64
+	DoReturnedNs           int64
+	DoReturnedSeq          uint64
+	DoReturned             bool
+	DoErr                  string
+	DoPanic                string
+	CancelNs               int64
+	CancelSeq              uint64
+	Cancelled              bool
+	TrigErr                string
+	NewRunErr              string
+	LeftoverAfter          []string
+	LateProgress           int
 	BodiesBegunAfterReturn int
 }
 
